@@ -18,13 +18,14 @@ class Verifier:
 
     def reset_fn(self):
         self.obls = {}; self.assumptions = set(); self.inlined = set(); self.bounded = []
-        self.paths = 0; self.path_kinds = {}
+        self.paths = 0; self.path_kinds = {}; self.ghosts_fired = set(); self.full_checks = 0; self.feas_cache = {}
         self._heap0 = {}; self._alloc0 = None
         self.cur = None; self.infeasible = 0
 
     # ---- services used by Exec
     def note_assumption(self, s): self.assumptions.add(s)
     def note_inlined(self, k): self.inlined.add(k)
+    def note_ghost(self, c, stmt): self.ghosts_fired.add((c.key, stmt))
     def note_bounded(self, s):
         if s not in self.bounded: self.bounded.append(s)
     def parse_spec(self, expr):
@@ -121,7 +122,11 @@ class Verifier:
         tag = z3.Function('clsid_' + obj.ty.cls, sort_of(obj.ty), z3.IntSort())(obj.t)
         ex.assume(z3.And(tag >= 0, tag < len(names)))
         return z3.Or(*[tag == names.index(d) for d in sorted(subs[c.name])])
-    def str_lib(self, ex, s, name, args, kwargs): raise Unsupported('str.%s (no library lemma loaded)' % name)
+    def str_lib(self, ex, s, name, args, kwargs):
+        if name == 'format':
+            self.note_assumption('str.format() result treated as an arbitrary string')
+            return V(TStr, fresh('fmt', z3.StringSort()))
+        raise Unsupported('str.%s (no library lemma loaded)' % name)
     def str_join(self, ex, sep, seq): raise Unsupported('str.join over a symbolic sequence')
     def map_iter(self, ex, recv, name): raise Unsupported('dict.%s iteration (needs ordered map model)' % name)
 
@@ -135,32 +140,32 @@ class Verifier:
         fs = z3.simplify(f)
         if z3.is_true(fs):
             ob.seconds += time.time() - t0; return
-        ex.solver.set('timeout', self.timeout_ms)
-        r = ex.solver.check(z3.Not(f))
+        # a fresh (non-incremental) solver per obligation: z3's incremental mode is markedly weaker on quantified goals
+        fs = z3.Solver(); fs.set('timeout', self.timeout_ms)
+        fs.add(ex.solver.assertions()); fs.add(z3.Not(f))
+        r = fs.check()
         dt = time.time() - t0; ob.seconds += dt
         if r == z3.unsat: return
         if r == z3.sat:
             if ob.status != 'failed':
                 ob.status = 'failed'
                 try:
-                    m = self.small_model(ex, f) or ex.solver.model()
+                    m = self.small_model(ex, f, fs) or fs.model()
                     ob.model = self.model_json(ex, m)
                 except Exception as e:  # pragma: no cover
                     ob.model = {'error': str(e)}
                 ob.where = 'line %s' % ex.cur_loc
                 ob.smt2 = self.dump(ex, f, oid)
             return
-        # unknown: try harder once with a fresh solver and alternative tactics
+        # unknown: second opinion from cvc5 on the same query
         if ob.status == 'discharged':
-            r2 = self.retry(ex, f)
+            r2 = run_cvc5(fs.to_smt2(), self.timeout_ms * 2 // 1000 + 1)
             if r2 == z3.unsat:
-                ob.backend = 'z3(retry)'; return
-            if r2 == z3.sat:
-                ob.status = 'failed'; ob.where = 'line %s' % ex.cur_loc; ob.smt2 = self.dump(ex, f, oid); return
-            ob.status = 'unknown'; ob.where = 'line %s (%s)' % (ex.cur_loc, ex.solver.reason_unknown())
+                ob.backend = 'cvc5'; return
+            ob.status = 'unknown'; ob.where = 'line %s (%s)' % (ex.cur_loc, fs.reason_unknown())
             ob.smt2 = self.dump(ex, f, oid)
 
-    def small_model(self, ex, f):
+    def small_model(self, ex, f, fs=None):
         """prefer a counter-model with short sequences / small integers (replayable)"""
         cons = []
         def walk(v):
@@ -173,11 +178,10 @@ class Verifier:
             elif isinstance(ty, TRec): [walk(x) for x in v.t.values()]
         for v in self.cur_inputs.values(): walk(v)
         if not cons: return None
-        ex.solver.set('timeout', 3000)
-        try:
-            for sub in (cons, [c for c in cons if 'Length' in str(c) or '<= 3' in str(c)]):
-                if ex.solver.check(z3.Not(f), *sub) == z3.sat: return ex.solver.model()
-        finally: ex.solver.set('timeout', self.timeout_ms)
+        for sub in (cons, [c for c in cons if 'Length' in str(c) or '<= 3' in str(c)]):
+            s2 = z3.Solver(); s2.set('timeout', 3000)
+            s2.add(ex.solver.assertions()); s2.add(z3.Not(f)); s2.add(*sub)
+            if s2.check() == z3.sat: return s2.model()
         return None
 
     def retry(self, ex, f):
@@ -229,6 +233,10 @@ class Verifier:
         res['obligations'] = [o.to_json() for o in self.obls.values()]
         res['assumptions'] = sorted(self.assumptions); res['inlined'] = sorted(self.inlined); res['bounded'] = list(self.bounded)
         res['seconds'] = round(time.time() - t0, 3)
+        if res['status'] == 'ok':
+            missing = [k for k in c.ghost_after if (c.key, k) not in self.ghosts_fired]
+            if missing:
+                res['status'] = 'stale'; res['error'] = 'ghost update(s) no longer attach to any statement: %s' % missing
         # vacuity: at least one path must reach a normal or declared-exceptional exit
         if res['status'] == 'ok' and not (self.path_kinds.get('normal') or self.path_kinds.get('raise')):
             res['status'] = 'vacuous'; res['error'] = 'no feasible path reaches an exit (contradictory requires?)'
@@ -279,7 +287,8 @@ class Verifier:
             # exits
             post_env = dict(ex.st.env)
             for p in pnames: post_env[p] = entry_env[p]     # parameters in postconditions denote entry values
-            for g in c.ghost: post_env[g] = entry_env[g]
+            for g in c.ghost:
+                if g not in c.hints.get('ghost_out', ()): post_env[g] = entry_env[g]     # ghost_out: the final value is the existential witness of the postcondition
             if kind == 'normal':
                 if isinstance(result, E.IterV): result = ex.materialize(result)
                 rty = w.ty(c.returns)
@@ -289,22 +298,22 @@ class Verifier:
                 post_env['result'] = result
                 for k, e in enumerate(c.ensures):
                     f = ex.eval_spec(e, env=post_env)
-                    ex.prove(f, '%s/post#%d' % (c.qual, k), 'post', e, c.tags.get(e, 'property'))
+                    ex.prove(f, '%s/post#%d' % (c.oname, k), 'post', e, c.tags.get(e, 'property'))
             else:
                 spec = None
                 for ecls, sp in c.raises.items():
                     if ex.exc_isinstance(exc.cls, ecls): spec = sp; break
                 if spec is None:
-                    self.prove(ex, z3.BoolVal(False), '%s/raises-only-declared' % c.qual, 'raises',
+                    self.prove(ex, z3.BoolVal(False), '%s/raises-only-declared' % c.oname, 'raises',
                                'no exception other than %s escapes (got %s at line %s)' % (sorted(c.raises) or 'none', exc.cls, ex.cur_loc), 'auxiliary')
                 else:
                     post_env['exc'] = V(TExc, exc)
                     if spec.get('only_if'):
                         f = ex.eval_spec(spec['only_if'], env=entry_env, heap=ex.old.heap)
-                        ex.prove(f, '%s/raises[%s]-only-if' % (c.qual, exc.cls), 'raises', spec['only_if'], 'property')
+                        ex.prove(f, '%s/raises[%s]-only-if' % (c.oname, exc.cls), 'raises', spec['only_if'], 'property')
                     for k, e in enumerate(spec.get('ensures', [])):
                         f = ex.eval_spec(e, env=post_env)
-                        ex.prove(f, '%s/raises[%s]#%d' % (c.qual, exc.cls, k), 'raises', e, 'property')
+                        ex.prove(f, '%s/raises[%s]#%d' % (c.oname, exc.cls, k), 'raises', e, 'property')
             self.path_kinds[kind] = self.path_kinds.get(kind, 0) + 1
         except E.PathEnd:
             self.path_kinds['loop-step'] = self.path_kinds.get('loop-step', 0) + 1
